@@ -75,7 +75,12 @@ func (q QueryContext) EvalQuery(query ast.Atom, mode []ast.ArgMode, uf unionfind
 		}
 		if sols != nil {
 			for _, s := range sols {
-				result := clause.Head.ApplySubst(s).(ast.Atom)
+				// As in bottom-up evaluation, apply-expressions in the head (d(X, [1]) is
+				// d(X, fn:list(1))) are evaluated; the caller unifies the result with its goal.
+				result, err := functional.EvalAtom(clause.Head, s)
+				if err != nil {
+					return err
+				}
 				if err := cb(result); err != nil {
 					return err
 				}
